@@ -572,6 +572,22 @@ pub fn gen_wire(seed: u64, tier: &Tier, shard: usize, nshards: usize, emit: &mut
         }
         // a node that receives the structure-aware datagrams
         emit(new_cmd(0, &node_id(1), "c", 100, DEFAULT_FD, "(pred none)", &[("k", "v")]));
+        if i % 8 == 5 {
+            // hostile composition: the receiver's own id inside a peer's digest, with an extreme
+            // heartbeat; the harm — if any — shows at the *next* message (or gossip tick)
+            let hb = [u64::MAX, u64::MAX - 1, u64::MAX - 2, 1u64 << 63][(i / 8) % 4];
+            let own = VNodeDigest { chitchat_id: node_id(1), heartbeat: hb, last_gc_version: 0, max_version: 0 };
+            let kind = (i / 32) % 2;
+            let m1 = if kind == 0 {
+                PMsg::Syn { cluster_id: "c".to_string(), digest: vec![own] }
+            } else {
+                PMsg::SynAck { digest: vec![own], delta: PDelta { serialized_len: 1, node_deltas: vec![] } }
+            };
+            emit(plist("msg", ["0".to_string(), p_msg(&m1)]));
+            for _ in 0..3 {
+                emit(plist("msg", ["0".to_string(), p_msg(&PMsg::Syn { cluster_id: "c".to_string(), digest: vec![] })]));
+            }
+        }
         let nmem = match rng.below(10) {
             0 => 0,
             1 => 1,
@@ -856,7 +872,17 @@ fn gen_mtu_exactfit(seed: u64, tier: &Tier, shard: usize, nshards: usize, emit: 
         emit(new_cmd(0, &me, "c", 100, DEFAULT_FD, "(pred none)", &[]));
         let entry_len = |id: &ChitchatId| 2 + id.node_id.len() + 8 + if id.gossip_advertise_addr.is_ipv4() { 7 } else { 19 } + 24;
         let big = |rng: &mut Rng| (1u64 << 56) + (rng.next() >> 8);
-        let x = ChitchatId::new(rand_string(&mut rng, rng_len(i), 2), big(&mut rng), SocketAddr::from(([rng.range(11, 250) as u8, rng.range(1, 250) as u8, rng.range(1, 250) as u8, rng.range(1, 250) as u8], rng.range(1025, 65000) as u16)));
+        // the stale member is advertised at an IPv4 or (odd cases) an IPv6 address
+        let x_addr: SocketAddr = if i % 2 == 1 {
+            let mut seg = [0u16; 8];
+            for g in seg.iter_mut() {
+                *g = rng.range(0x1001, 0xfffe) as u16;
+            }
+            SocketAddr::from((seg, rng.range(1025, 65000) as u16))
+        } else {
+            SocketAddr::from(([rng.range(11, 250) as u8, rng.range(1, 250) as u8, rng.range(1, 250) as u8, rng.range(1, 250) as u8], rng.range(1025, 65000) as u16))
+        };
+        let x = ChitchatId::new(rand_string(&mut rng, rng_len(i), 2), big(&mut rng), x_addr);
         let room = rng.range(100, 200) as usize;
         let target = 65_503usize - room;
         let mut dlen: usize = 2 + entry_len(&me) + entry_len(&x);
@@ -916,7 +942,13 @@ pub fn gen_mtu(seed: u64, tier: &Tier, shard: usize, nshards: usize, emit: &mut 
         let mut ids = Vec::new();
         let budget_keys = if tier.thorough { 300 } else { 120 };
         for m in 0..members {
-            let id = ChitchatId::new(format!("member-{m}-{}", { let l = rng.below(30) as usize; rand_string(&mut rng, l, 1) }), rng.below(3), SocketAddr::from(([10, 0, (m / 250) as u8, (m % 250) as u8], 7000 + m as u16)));
+            // a quarter of the cases advertise every third member at an IPv6 address
+            let addr: SocketAddr = if i % 4 == 2 && m % 3 == 1 {
+                SocketAddr::from(([0x2001, 0xdb8, 0, 0, 0, 0, (m / 250) as u16, (m % 250) as u16 + 1], 7000 + m as u16))
+            } else {
+                SocketAddr::from(([10, 0, (m / 250) as u8, (m % 250) as u8], 7000 + m as u16))
+            };
+            let id = ChitchatId::new(format!("member-{m}-{}", { let l = rng.below(30) as usize; rand_string(&mut rng, l, 1) }), rng.below(3), addr);
             ids.push(id.clone());
             let nkeys = match rng.below(5) {
                 0 => 0,
